@@ -520,6 +520,12 @@ def write_evidence(prop, tier, seed, results, jobs, wall, pool, info, selftest, 
     pair_union.update(r.get('switch_pair_hashes') or [])
     for a in r.get('abstract', []) or []:
       abstract.add(a)
+  # faults that are not exceptions: counted from the probes the engine/workloads set when they actually fired
+  for probe, kind in (('stall_fault_fired', 'stall'), ('event_drop', 'drop-event'), ('event_gc', 'gc-event'),
+                      ('event_touch', 'mtime-touch'), ('drop_as_thread_step', 'drop-step'),
+                      ('timed_wait_expired', 'timeout-expiry')):
+    if probes.get(probe):
+      fk[kind] = fk.get(kind, 0) + probes[probe]
   points_fired = set()
   for r in ok:
     for f in r.get('faults_fired', []):
